@@ -144,7 +144,7 @@ func (p *propC13) Check(sc *Scenario, st *Stats) []Violation {
 			nid++
 		}
 	}
-	if nid != 1 {
+	if nid != 1 && !(sc.Family == "many-definitions" && nid == 2) {
 		return nil
 	}
 	r := runTask(&sc.Tasks[0], sc.buildMedia(), nil, nil)
